@@ -662,3 +662,61 @@ fires('m284-min-length-off-by-one', ['C02', 'C04'], [(CORE, "        if (len(sel
 fires('m285-init-count-not-reset', ['C20', 'C03'], [(CORE, "                self._init_count = 1\n                self._silence_length = 0\n                self._start_frame = self._current_frame", "                self._init_count += 1\n                self._silence_length = 0\n                self._start_frame = self._current_frame")],
       'the initial-phase counter accumulates across candidates and across runs')
 silent('t280-frame-none-eq', TOK + ['C08'], [(CORE, "            if frame is None:\n                token = self._post_process()", "            if frame is None or frame is None:\n                token = self._post_process()")])
+
+# ------------------------------------------------------------------ behaviour-preserving refactorings across the package (must stay silent for EVERY check)
+ALL = ['C%02d' % i for i in range(1, 21)]
+silent('r01-split-mode-or-chain', ALL, [(CORE, "    mode = StreamTokenizer.DROP_TRAILING_SILENCE if drop_trailing_silence else 0\n    if strict_min_dur:\n        mode |= StreamTokenizer.STRICT_MIN_LENGTH\n",
+                                        "    mode = StreamTokenizer.NORMAL\n    if drop_trailing_silence:\n        mode |= StreamTokenizer.DROP_TRAILING_SILENCE\n    if strict_min_dur:\n        mode |= StreamTokenizer.STRICT_MIN_LENGTH\n")])
+silent('r02-limiter-remaining', ALL, [(UTIL, "        size = min(self._max_samples - self._read_samples, size)\n        if size <= 0:\n            return None\n        block = self._audio_source.read(size)",
+                                       "        remaining = self._max_samples - self._read_samples\n        if remaining <= 0:\n            return None\n        block = self._audio_source.read(min(remaining, size))")])
+silent('r03-recorder-truthy-cache', ALL, [(UTIL, "        if block is not None:\n            self._cache.append(block)\n        return block", "        if block:\n            self._cache.append(block)\n        return block")])
+silent('r04-buffer-read-end', ALL, [(IO, """        if size is None or size < 0:
+            offset = None
+        else:
+            bytes_to_read = self._sample_size_all_channels * size
+            offset = self._current_position_bytes + bytes_to_read
+        data = self._data[self._current_position_bytes : offset]""", """        start = self._current_position_bytes
+        if size is None or size < 0:
+            end = None
+        else:
+            end = start + size * self._sample_size_all_channels
+        data = self._data[start:end]""")])
+silent('r05-worker-run-continue', ALL, [(WORKERS, "            if message == _STOP_PROCESSING:\n                break\n            if message is not None:\n                self._process_message(message)\n        self._post_process()",
+                                         "            if message is None:\n                continue\n            if message == _STOP_PROCESSING:\n                break\n            self._process_message(message)\n        self._post_process()")])
+silent('r06-saver-read-ternary', ALL, [(WORKERS, "        data = self._reader.read()\n        if data is not None:\n            self.send(data)\n        else:\n            self.send(_STOP_PROCESSING)\n        return data",
+                                        "        data = self._reader.read()\n        self.send(data if data is not None else _STOP_PROCESSING)\n        return data")])
+silent('r07-make-kwargs-item-assignments', ALL, [(CMDU, "    split_kwargs = {\n        \"min_dur\": args_ns.min_duration,\n        \"max_dur\": args_ns.max_duration,\n", "    split_kwargs = {\n        \"max_dur\": args_ns.max_duration,\n"),
+                                                  (CMDU, "    miscellaneous = {\n", "    split_kwargs[\"min_dur\"] = args_ns.min_duration\n\n    miscellaneous = {\n")])
+silent('r08-energy-clip-inside', ALL, [(SIG, "    energy_sqrt = np.sqrt(np.mean(x**2, axis=-1))\n    energy_sqrt = np.clip(energy_sqrt, a_min=EPSILON, a_max=None)\n    energy = 20 * np.log10(energy_sqrt)",
+                                        "    mean_square = np.clip(np.mean(x**2, axis=-1), a_min=EPSILON**2, a_max=None)\n    energy = 10 * np.log10(mean_square)")])
+silent('r09-file-read-or-none', ALL, [(IO, "        data = self._read_from_stream(size)\n        if not data:\n            return None\n        return data", "        data = self._read_from_stream(size)\n        return data or None")])
+silent('r10-is-valid-flipped', ALL, [(UTIL, "        return log_energy >= self._energy_threshold\n", "        return self._energy_threshold <= log_energy\n")])
+silent('r11-detection-keywords', ALL, [(WORKERS, "            detection = _Detection(\n                _id,\n                audio_region.meta.start,\n                audio_region.meta.end,\n                audio_region.duration,\n            )",
+                                        "            detection = _Detection(\n                id=_id,\n                start=audio_region.meta.start,\n                end=audio_region.meta.end,\n                duration=audio_region.duration,\n            )")])
+silent('r12-overlap-locals', ALL, [(UTIL, """        block = self._audio_source.read(self._block_size)
+        if block is None:
+            return
+
+        _hop_size_bytes = (
+            self._hop_size * self._audio_source.sw * self._audio_source.ch
+        )
+        cache = block[_hop_size_bytes:]
+        yield block
+""", """        hop_bytes = self._hop_size * self._audio_source.sw * self._audio_source.ch
+        first = self._audio_source.read(self._block_size)
+        if first is None:
+            return
+        cache = first[hop_bytes:]
+        yield first
+        _hop_size_bytes = hop_bytes
+""")])
+silent('r13-duration-helper-inline', ALL, [(CORE, "    return int(round_fn(duration / analysis_window + epsilon))\n", "    nb_windows = duration / analysis_window\n    return int(round_fn(nb_windows + epsilon))\n")])
+silent('r14-make-silence-bytes-n', ALL, [(CORE, "    size = round(duration * sampling_rate) * sample_width * channels\n    data = b\"\\0\" * size\n", "    nb_samples = round(duration * sampling_rate)\n    data = bytes(nb_samples * sample_width * channels)\n")])
+silent('r15-getitem-len-self', ALL, [(CORE, "        len_samples = len(self.data) // bytes_per_sample\n", "        len_samples = len(self)\n")])
+silent('r16-stop-requested-explicit', ALL, [(WORKERS, "            message = self._inbox.get_nowait()\n            if message == _STOP_PROCESSING:\n                return True\n        except Empty:\n            return False",
+                                             "            message = self._inbox.get_nowait()\n        except Empty:\n            return False\n        return message == _STOP_PROCESSING")])
+silent('r17-position-setter-locals', ALL, [(IO, "        position *= self._sample_size_all_channels\n        if position < 0:\n            position += len(self.data)\n        if position < 0 or position > len(self.data):\n            raise IndexError(\"Position out of range\")\n        self._current_position_bytes = position",
+                                            "        offset = position * self._sample_size_all_channels\n        if offset < 0:\n            offset += len(self.data)\n        if offset < 0 or offset > len(self.data):\n            raise IndexError(\"Position out of range\")\n        self._current_position_bytes = offset")])
+silent('r18-tokenizer-worker-read-not', ALL, [(WORKERS, "        if self._stop_requested():\n            return None\n        else:\n            return self._reader.read()", "        if not self._stop_requested():\n            return self._reader.read()\n        return None")])
+silent('r19-check-audio-data-mod', ALL, [(IO, "    sample_size_bytes = int(sample_width * channels)\n    nb_samples = len(data) // sample_size_bytes\n    if nb_samples * sample_size_bytes != len(data):", "    sample_size_bytes = int(sample_width * channels)\n    if len(data) % sample_size_bytes != 0:")])
+silent('r20-post-init-duration-local', ALL, [(CORE, "        duration = len(self.data) / (\n            self.sampling_rate * self.sample_width * self.channels\n        )", "        bytes_per_second = self.sampling_rate * self.sample_width * self.channels\n        duration = len(self.data) / bytes_per_second")])
